@@ -109,6 +109,30 @@ CHECKS['C14'] = ('model_checking', 'statespace',
     'check_out order unspecified (model follows the implementation); SQLAlchemy 2.0 with the '
     'select([...]) shim; SQLite atomic commit trusted.', '5/C14')
 
+CHECKS['C01'] = ('model_checking', 'explore',
+    'stateless DFS (deviation budget) over server answer orders of the unmodified application on '
+    'a virtual loop + in-memory site; request log and table compared with an independent '
+    'set-closure crawler',
+    'Feature sites (cycle/diamond/self-link/duplicates, seven respellings of one URL, same-host '
+    'redirects, page requisites incl. nested iframe, out-of-scope second host, no-parent, depth '
+    'chains, duplicate start URLs) x ten option sets x concurrency 1-2 (3 thorough), plus all 512 '
+    'three-page digraphs in thorough: every order in which the server answers outstanding requests '
+    'is explored; an answer that beats queued callbacks costs one deviation. Oracle: request '
+    'multiset equals the reference closure (visit + redirect hops), every row done/skipped, '
+    'exit 0, termination.',
+    'reference crawler vt/refs/crawlref.py + scope rules vt/refs/scope.py; html5lib scraper; '
+    'robots off; concurrency set via PipelineSeries.concurrency.', '5/C01')
+CHECKS['C03'] = ('fault_enumeration', 'explore',
+    'exhaustive crash-point enumeration of explored run-1 schedules, each snapshot of the SQLite '
+    'files resumed by the real application',
+    'For sites x options x concurrency 1-2 x run-1 schedules, the db/-wal/-shm files are '
+    'snapshotted before and after every commit, at every request received and every response '
+    'delivered; each distinct snapshot is resumed with the same command and must: not revisit a '
+    'URL that was done, leave every row final, lose no discovered URL, together with run 1 cover '
+    'every URL of the uninterrupted crawl, and exit 0.',
+    'process-kill model (no power loss); SQLite atomic commit trusted; run 2 uses the default '
+    'schedule.', '5/C03')
+
 NOT_YET = {}
 
 
